@@ -157,6 +157,27 @@ def ob_calderon(mesh, transform=None):
     return held(txt)
 
 
+def ob_calderon_orders(mesh):
+    """bounded: for every regular order 6..12 (singular order 8) both residuals stay below 5e-5 on the coarse mesh (they are 7e-6 .. 1e-7 on the
+    unchanged tree): a quadrature rule that is wrong for one particular order shows up here."""
+    import warnings
+
+    warnings.simplefilter("ignore")
+    worst = {}
+    for oreg in range(6, 13):
+        r = max(calderon_residuals(mesh, oreg, 8))
+        worst[oreg] = r
+        if r > 5e-5:
+            return violated("Calderon residual on %s at regular order %d (singular 8) is %.2e" % (mesh, oreg, r), witness={"mesh": mesh, "regular": oreg, "singular": 8},
+                            replay={"callable": "checks.c01:replay_calderon_orders", "kwargs": {"mesh": mesh}, "confirmed": True}, signature="calderon-orders/%s" % mesh)
+    return held(" ".join("o%d: %.0e" % kv for kv in worst.items()))
+
+
+def replay_calderon_orders(mesh):
+    r = ob_calderon_orders(mesh)
+    return {"violates": r["status"] == "violated", "detail": r["detail"]}
+
+
 def replay_calderon(mesh, transform=None):
     r = ob_calderon(mesh, transform)
     return {"violates": r["status"] == "violated", "detail": r["detail"]}
@@ -215,6 +236,16 @@ def main():
         for share in (2, 1):
             run.add("pipeline.laplace_hypersingular[pair share=%d %s/%s]" % (share, p0, p1_), "post", PL.ob_pipeline, "pair:%d:%s:%s" % (share, p0, p1_), dp1, dp1, None, None, "laplace_hypersingular")
     run.add("lemma.surface-curls", "lemma", ob_curl_lemma)
+    # the quadrature rules the pipeline contract abstracts are discharged against their own contracts for the orders of the statement
+    from checks import c12
+
+    for n in range(6, 13):
+        run.add("callee.triangle_gauss.rule(%d)::moments" % n, "table", c12.ob_triangle, n)
+    for n in range(6, 11):
+        run.add("callee.gauss.rule(%d)::moments" % n, "table", c12.ob_gauss, n)
+    for adj in c12.ADJ:
+        run.add("callee.duffy_galerkin.rule(%s)::change-of-variables-exact(deg<=6)" % adj, "lemma", c12.ob_duffy_exact, adj, 6)
+    run.add("calderon.all-regular-orders[octa]", "bounded", ob_calderon_orders, "octa")
     run.add("calderon.tetra", "bounded", ob_calderon, "tetra")
     run.add("calderon.octa", "bounded", ob_calderon, "octa")
     if thorough:
